@@ -313,12 +313,21 @@ type srcState struct {
 	traversals int
 }
 
+// next counts traversals. The same host list may be iterated by two producer
+// goroutines at once (h.merge(h, ...)); the counter is harness state and must not
+// show up in the race detector (only the baton holder runs, so the count is exact).
+//
+//go:norace
+func (s *srcState) next() int {
+	s.traversals++
+	return s.traversals
+}
+
 func hostList(n int, failAt, failOn int) *value.List {
 	s := &srcState{}
 	return value.NewListFromIterable(func(st funcGen.Stack[value.Value]) iterator.Producer[value.Value] {
 		return func(yield iterator.Consumer[value.Value]) {
-			s.traversals++
-			tr := s.traversals
+			tr := s.next()
 			for i := 0; i < n; i++ {
 				if failAt >= 0 && i == failAt && tr == failOn {
 					noteFired(fSrcFail)
